@@ -3,6 +3,7 @@
 From GN Require Import Common.Base Common.Int64 Model.VC Gen.BufferVC Gen.OtherVC Proofs.VCTactics Proofs.VCProofs
   Model.BufferTypes Gen.BufferMethods Model.Buffer Spec.BufferNumSpec Proofs.BufferGuards Proofs.BufferNumRefine Proofs.BufferNumExtra
   Model.Codecs Gen.BufferCodecs Model.BufferStrings Spec.BufferStringsSpec Proofs.BufferStringsProofs.
+From GN Require Import Proofs.JobsRegistry.
 From GN Require Import Gen.UtilFormat Model.ConsoleSrc.
 From Coq Require Import String.
 From GN Require Import Model.BufferSrc.
@@ -70,3 +71,9 @@ Print Assumptions C09_strings_source_tie.
 Theorem C09_console_util_source_tie : console_util_src = expected_console_util_src.
 Proof. vm_compute. reflexivity. Qed.
 Print Assumptions C09_console_util_source_tie.
+
+(* removeJob (reached from clearTimeout, doTimeout, interval shutdown and Terminate): with the position invariant of loop.jobs,
+   called on a registered job or on one already marked -1 it never indexes out of range *)
+Theorem C09_removeJob_never_out_of_range : forall r j, reg_inv r -> (In j (rjobs r) \/ ridx r j < 0) -> reg_remove r j <> None.
+Proof. exact remove_never_out_of_range. Qed.
+Print Assumptions C09_removeJob_never_out_of_range.
